@@ -412,6 +412,19 @@ class World:
 # value model helpers
 
 
+def sym_key(v):
+    """Symbolic (irrational / complex) numbers are outside the properties' value domain; they are compared by a
+    10-significant-digit numeric key so that `0.00555555555555556*pi` and `pi/180` (the same value before and after
+    vyxalify's nsimplify) are not told apart by their printed form."""
+    try:
+        import sympy
+
+        c = complex(sympy.N(v, 15))
+        return "%.10g%+.10gj" % (c.real, c.imag)
+    except Exception:
+        return "?"
+
+
 def to_model(v, LazyList, limit=200, depth=0):
     """Canonical, hashable-free structural form of a Vyxal value.  Forces lazy lists (so it is an
     observation and must only be called where the schedule says so)."""
@@ -434,7 +447,7 @@ def to_model(v, LazyList, limit=200, depth=0):
             return int(v)
         if v.is_Rational:
             return ["q", int(v.p), int(v.q)]
-        return ["sym", str(v)]
+        return ["sym", sym_key(v)]
     if isinstance(v, float):
         return ["f", repr(v)]
     if isinstance(v, types.FunctionType):
@@ -468,7 +481,7 @@ def eager_snapshot(v, LazyList):
             return int(v)
         if v.is_Rational:
             return ["q", int(v.p), int(v.q)]
-        return ["sym", str(v)]
+        return ["sym", sym_key(v)]
     if isinstance(v, LazyList):
         return ["lazy"]
     if isinstance(v, types.FunctionType):
